@@ -188,3 +188,79 @@
     //@ERR
     //@BITCHAN
     fn c01_sym_match_large() { sym_match_mirror(3, 128, u32::MAX); }
+
+    /// C01.sym.lit: LiteralSubEncoder::encode -> LiteralSubDecoder::decode over the bit channel, in both literal modes:
+    /// after a literal (plain 8-bit tree) and after a match (tree steered by the byte at distance rep0): for every byte
+    /// value, every match byte and every state: the decoder appends exactly the encoded byte to its dictionary, both
+    /// sides use the same probability slots in the same order and move to the same state.
+    fn sym_lit_mirror(state: u8) {
+        let cur: u8 = vk::any();
+        let mbyte: u8 = vk::any();
+        let rep0: i32 = vk::any();
+        vk::assume(rep0 >= 0 && rep0 < 3);
+        // encoder window: [.., match byte at distance rep0+1, .., current byte]; read_pos points at the current byte
+        let mut lz = core::mem::ManuallyDrop::new(unsafe { core::mem::MaybeUninit::<LZEncoder>::zeroed().assume_init() });
+        let mut buf = alloc::vec![7u8; 8];
+        buf[5] = cur;
+        buf[(5 - 1 - rep0) as usize] = mbyte;
+        unsafe { core::ptr::write(&mut lz.data.buf, buf); }
+        lz.data.read_pos = 5;
+        let mut data = core::mem::ManuallyDrop::new(unsafe { core::mem::MaybeUninit::<LZMAEncData>::zeroed().assume_init() });
+        data.read_ahead = 0;
+        let mut ec = vk::plain_coder(2, state, [rep0, 9, 9, 9]);
+        let mut dc = vk::plain_coder(2, state, [rep0, 9, 9, 9]);
+        let mut se = LiteralSubEncoder::new();
+        let mut sd = crate::decoder::verif_kani::LitDec::new();
+        // decoder dictionary holds the same history (5 bytes), room for one more
+        let mut dlz = crate::lz::LZDecoder::new(8, None);
+        let mut i = 0;
+        while i < 5 { dlz.put_byte(lz.data.buf[i]); i += 1; }
+        dlz.set_limit(1);
+        vk::ch_reset();
+        vk::ch_register(0, &se.coder, sd.probs());
+        let mut rce = RangeEncoder::new(vk::Sink::<4>::new());
+        assert!(se.encode(&lz, &data, &mut ec, &mut rce).is_ok());
+        let mut rcd = crate::range_dec::verif_kani::mk_decoder(vk::Src::<1>::new([0], 0), 0, 0);
+        assert!(sd.decode(&mut dc, &mut dlz, &mut rcd).is_ok());
+        assert!(dlz.get_byte(0) == cur);
+        assert!(dlz.get_pos() == 6);
+        assert!(vk::ch_drained());
+        assert!(ec.state.get() == dc.state.get());
+        crate::vcover!(cur != mbyte);
+    }
+    #[kani::proof]
+    #[kani::unwind(10)]
+    //@ERR
+    //@BITCHAN
+    fn c01_sym_lit_after_literal() { sym_lit_mirror(0); }
+    #[kani::proof]
+    #[kani::unwind(10)]
+    //@ERR
+    //@BITCHAN
+    fn c01_sym_lit_after_literal5() { sym_lit_mirror(5); }
+    #[kani::proof]
+    #[kani::unwind(10)]
+    //@ERR
+    //@BITCHAN
+    fn c01_sym_lit_after_match() { sym_lit_mirror(7); }
+    #[kani::proof]
+    #[kani::unwind(10)]
+    //@ERR
+    //@BITCHAN
+    fn c01_sym_lit_after_rep() { sym_lit_mirror(11); }
+
+    /// C01.sym.lit: both sides pick the same literal sub-coder for equal (previous byte, position): the shared
+    /// LiteralCoder::get_sub_coder_index stays below 2^(lc+lp) for every in-range lc/lp.
+    #[kani::proof]
+    #[kani::unwind(2)]
+    fn c01_sym_lit_subcoder_index() {
+        let (lc, lp): (u32, u32) = (vk::any(), vk::any());
+        vk::assume(lc <= 8 && lp <= 4 && lc + lp <= 12);
+        let c = crate::LiteralCoder::new(lc, lp);
+        let prev: u32 = vk::any();
+        let pos: u32 = vk::any();
+        vk::assume(prev < 256);
+        let i = c.get_sub_coder_index(prev, pos);
+        assert!(i < (1u32 << (lc + lp)));
+        assert!(i == (prev >> (8 - lc)) + ((pos & ((1 << lp) - 1)) << lc));
+    }
